@@ -242,7 +242,74 @@ def batch_worker(part, sizes):
         part.outcome(("batch", N > 65536, N % 2))
 
 
+def far_worker(part, job):
+    """
+    extended clusters: exterior atoms 3..25 A from the interior (the tabulated densities end at 10.58 A), evaluation points on
+    shells round EVERY atom - near a far exterior atom the interior's share is ~0, the weights of the two complementary
+    partitions still sum to one, and the density is still the sum over all atoms
+    """
+    from chmpy.interpolate.density import PromoleculeDensity, StockholderWeight
+
+    zi, ze, dists = job
+    interior = np.array([[0.0, 0.0, 0.1173], [0.0, 0.7572, -0.4692], [0.0, -0.7572, -0.4692]])[: len(zi)]
+    dirs = [np.array([1.0, 0.0, 0.0]), np.array([0.6, 0.8, 0.0]), np.array([0.0, -0.6, 0.8]), np.array([-0.48, 0.6, -0.64])]
+    ext = np.array([dirs[k % 4] * D + 0.05 * k for k, D in enumerate(dists)])
+    ez = np.array([ze[k % len(ze)] for k in range(len(dists))])
+    zi = np.array(zi)
+    sh = []
+    for r in (0.6, 1.2, 2.0):
+        for v in itertools.product((-1, 0, 1), repeat=3):
+            if any(v):
+                sh.append(r * np.array(v) / np.linalg.norm(v))
+    sh = np.array(sh)
+    allsites = np.vstack([interior, ext])
+    pts = np.vstack([a + sh for a in allsites])
+    keep = np.min(np.linalg.norm(pts[:, None, :] - allsites[None, :, :], axis=2), axis=1) >= 0.3
+    pts = pts[keep]
+    case = {"kind": "far", "zi": [int(z) for z in zi], "ze": [int(z) for z in ze], "dists": list(dists)}
+    part.ev()
+    part.nstates(1)
+    p32 = pts.astype(np.float32).astype(np.float64)
+    ri, _ = interp.promolecule_rho(zi, interior.astype(np.float32).astype(np.float64), p32)
+    re_, _ = interp.promolecule_rho(ez, ext.astype(np.float32).astype(np.float64), p32)
+    try:
+        for how in ("from_arrays", "constructor"):
+            part.tr()
+            if how == "from_arrays":
+                s1 = StockholderWeight.from_arrays(zi, interior, ez, ext)
+                s2 = StockholderWeight.from_arrays(ez, ext, zi, interior)
+            else:
+                s1 = StockholderWeight(PromoleculeDensity((zi, interior)), PromoleculeDensity((ez, ext)))
+                s2 = StockholderWeight(PromoleculeDensity((ez, ext)), PromoleculeDensity((zi, interior)))
+            w = np.asarray(s1.weights(pts), dtype=np.float64)
+            w2 = np.asarray(s2.weights(pts), dtype=np.float64)
+            ok = (ri + re_) > 1e-12
+            wref = ri[ok] / (ri[ok] + re_[ok])
+            dw = float(np.abs(w[ok] - wref).max())
+            part.dev("far_weight_abs", dw)
+            if dw > 2e-4:
+                k = int(np.argmax(np.abs(w[ok] - wref)))
+                part.fail("far:weight-value:" + how, "extended cluster (exterior atoms %s A away, %s): weight %.6f where interior/(interior+exterior) = %.6f at %s"
+                          % (list(dists), how, w[ok][k], wref[k], np.round(pts[ok][k], 3)), case)
+            if np.nanmin(w) < 0 or np.nanmax(w) > 1 + 1e-6:
+                part.fail("far:weight-range:" + how, "weight outside [0,1] in an extended cluster", case)
+            if np.abs(w[ok] + w2[ok] - 1).max() > 1e-5:
+                part.fail("far:weight-complement:" + how, "complementary weights of an extended cluster sum to %.6f at worst" % float((w[ok] + w2[ok])[np.argmax(np.abs(w[ok] + w2[ok] - 1))]), case)
+        part.tr()
+        got = np.asarray(PromoleculeDensity((np.concatenate([zi, ez]), allsites)).rho(pts), dtype=np.float64)
+        e = relerr(got, ri + re_)
+        part.dev("far_sum_rel", e)
+        if e > REL:
+            part.fail("far:sum-of-atoms", "density of an extended cluster deviates from the sum of atomic densities (rel. %.3g)" % e, case)
+    except Exception as ex:
+        part.fail("far:raise", "extended cluster raised %r" % ex, case)
+    part.outcome(("far", len(dists), max(dists) > 10.58))
+
+
 def worker(part, job, seed):
+    if job[0] == "far":
+        far_worker(part, job[1])
+        return
     if job[0] == "batch":
         batch_worker(part, job[1])
         return
@@ -275,6 +342,11 @@ def run(ctx):
             ctx.fail("bad-element-accepted:%d" % bad, "PromoleculeDensity accepts atomic number %d" % bad, {"kind": "bad", "z": bad})
         except ValueError:
             pass
+    far = []
+    for zi, ze in (((8, 1, 1), (8, 1)), ((6,), (17,)), ((1, 1), (92, 8))):
+        for dists in ((3.0, 13.0), (10.5,), (10.7,), (25.0,), (3.0, 8.0, 10.6, 15.0), (12.0, 12.5, 30.0)):
+            far.append(("far", (zi, ze, dists)))
+    jobs += far
     bs = BATCH_SIZES if ctx.thorough else tuple(n for n in BATCH_SIZES if n <= 70001)
     jobs += [("batch", bs[i::4]) for i in range(4)]
     jobs += [("config", c, 20 if not ctx.thorough else 5) for c in chunked(configs, max(1, len(configs) // 200))]
@@ -284,7 +356,7 @@ def run(ctx):
                 "bipartitions (additivity; weights with 3 backgrounds; complements), rigid motions (23 octahedral + 3 generic rotations + 3 translations + 1 "
                 "combined: all of them on every %dth configuration, 3 on the others); distinct = elements and configurations"
                 % (kmax, ELEMENTS, len(configs), "", 5 if ctx.thorough else 20))
-    ctx.bounds = {"configurations": len(configs), "max_atoms": kmax, "rel_tol": REL, "batch_sizes": list(bs)}
+    ctx.bounds = {"configurations": len(configs), "max_atoms": kmax, "rel_tol": REL, "batch_sizes": list(bs), "extended_clusters": "%d clusters with exterior atoms 3..30 A from the interior, points on shells round every atom" % len(far)}
     ctx.assumptions = ["the reference is evaluated at the float32-rounded coordinates the kernel receives", "beyond the table end either fill value (last tabulated value or 0) is accepted",
                        "points within 0.3 A of a nucleus excluded, as the property says", "compiled kernel exercised as built; Python-side row binding, unit handling and wrappers are live"]
     ctx.sample({"a_configuration": {"sites": [0, 4], "zs": [8, 1]}, "n_points": int(len(eval_points(SITES[[0, 4]])))})
@@ -295,5 +367,7 @@ def replay(ctx, case):
         table_worker(ctx, [case["z"]])
     elif case["kind"] == "config":
         config_worker(ctx, [(0, (tuple(case["sites"]), tuple(case["zs"])))], case["seed"], 1)
+    elif case["kind"] == "far":
+        far_worker(ctx, (tuple(case["zi"]), tuple(case["ze"]), tuple(case["dists"])))
     elif case["kind"] == "batch":
         batch_worker(ctx, [case["N"]])
